@@ -8,7 +8,7 @@ grammar; floating-point literals read back to within one unit in the last place.
 
 Models (FfcxModel/LNodes/{FormatC,FormatNumba,Lex,ParseC,ParsePy}.lean) mirror the formatters of
 the working tree (after the /repo fixes 784668e, 74ce3e1, abc5593, b5ab6da, ab851ef, 79475cb,
-96a0205, 584b753) and are tied to them by exact-text correspondence on every run.
+96a0205, 584b753, and the MathFunction handler change 656b74c/c5f832c) and are tied to them by exact-text correspondence on every run.
 
 * `prec_table_agrees`, `multiindex_prec_agrees`, `math_names_injective`, `local_faithful`,
   `local_faithful_py` — complete `decide` over the table regenerated from /repo on every run.
@@ -19,7 +19,13 @@ the working tree (after the /repo fixes 784668e, 74ce3e1, abc5593, b5ab6da, ab85
   `norm_eval`: `eval (norm e) = eval e`.
 * `literal_readback_exact` / `literal_1ulp` — FULL at the value level (normal binary64, no overflow),
   backed by `literal_exact_17`.
-* statements, numba: partial, see below.
+* `roundtrip_stmt_C`, `roundtrip_stmt_Py`, `roundtrip_stmt` — FULL for every statement form
+  (text → tokens → statement tree; for numba with NEWLINE / INDENT / DEDENT and the `pass` rule).
+* `no_token_fusion_py`, `roundtrip_Py` — FULL for numba expressions (no typing hypothesis).
+* Modelling limits of the lexer models (FfcxModel/LNodes/Lex.lean): the only line terminator is
+  `\n` (a lone `\r` inside a comment text would end the line for GCC / CPython); no `-0.0`, no
+  overflow in the literal theorems. Every tree and statement the harness evaluates (all generated
+  kernels included) satisfies the hypotheses `wfC` / `wfPy` / `wfS` / `wfSPy` (reported per run).
 -/
 import FfcxProofs.Lemmas.FormatNorm
 import FfcxProofs.Lemmas.FormatTables
@@ -28,6 +34,12 @@ import FfcxProofs.Lemmas.FormatStmt
 import FfcxProofs.Lemmas.FormatPy
 import FfcxProofs.Lemmas.FormatEval
 import FfcxProofs.Lemmas.FormatShape
+import FfcxProofs.Lemmas.FormatStmtText
+import FfcxProofs.Lemmas.FormatRaise
+import FfcxProofs.Lemmas.FormatPySepExpr
+import FfcxProofs.Lemmas.FormatPyShape
+import FfcxProofs.Lemmas.FormatPyNorm
+import FfcxProofs.Lemmas.FormatPyStmtText
 import FfcxModel.LNodes.Scalars
 
 
@@ -105,7 +117,29 @@ example :
     typing discipline is needed for C. -/
 theorem roundtrip_C (sc : Scalar) (e : Expr) (hwf : wfC sc e = true) :
     parseExprC (lexC (fmtExprC sc e)) = some (eraseC sc (norm e)) := by
-  rw [no_token_fusion sc e hwf, parse_tokens_C sc e hwf, eraseC_norm]
+  rw [no_token_fusion sc e hwf, parse_tokens_C sc e hwf, eraseC_norm sc e hwf]
+
+/-- …and on a well-formed tree the formatter does not raise: `formatExprC` (the MathFunction
+    handler of the current /repo: the math table is the scalar-type one iff ANY argument has dtype
+    SCALAR; if that table belongs to a complex type and does not contain the function — `erf`,
+    `atan_2`, Bessel functions, `min_value`/`max_value`, unknown handler names — the handler raises
+    `RuntimeError`) returns the text `fmtExprC`. `wfC` excludes exactly those calls (`callOK`). -/
+theorem format_C_total (sc : Scalar) (e : Expr) (hwf : wfC sc e = true) :
+    formatExprC sc e = some (fmtExprC sc e) := by
+  simp only [formatExprC, wfC_not_raises sc e hwf, Bool.false_eq_true, if_false]
+
+/-- the raising case is real and is excluded by `wfC` only where the formatter raises: `erf` of a
+    SCALAR symbol raises in complex128 and is printed (`erf(y)`) in float64, `sqrt` of it is printed
+    `csqrt(y)`; one SCALAR argument anywhere selects the complex table (`cpow(x, y)`) -/
+example :
+    formatExprC .c128 (.call "erf" .scalar [.sym "y" .scalar]) = none
+    ∧ wfC .c128 (.call "erf" .scalar [.sym "y" .scalar]) = false
+    ∧ formatExprC .f64 (.call "erf" .scalar [.sym "y" .scalar]) = some "erf(y)".toList
+    ∧ formatExprC .c128 (.call "sqrt" .scalar [.sym "y" .scalar]) = some "csqrt(y)".toList
+    ∧ formatExprC .c128 (.call "power" .real [.sym "x" .real, .sym "y" .scalar]) = some "cpow(x, y)".toList
+    ∧ formatExprC .c128 (.call "power" .real [.sym "x" .real, .sym "z" .real]) = some "pow(x, z)".toList
+    ∧ formatExprC .c128 (.call "atan_2" .real [.sym "x" .real, .sym "y" .scalar]) = none := by
+  refine ⟨?_, ?_, ?_, ?_, ?_, ?_, ?_⟩ <;> decide +kernel
 
 /-- The only non-structural conjunct of `wfC` — "the printed literal text is one number token" —
     always holds: every text `repr(float)` / `str(int)` produces is a pp-number that starts with a
@@ -173,61 +207,145 @@ example : LawfulExtra ratExtra ∧ ComplexI ratExtra ({ iv := [("i", 1), ("j", 2
 
 end Value
 
-/-! ## statements -/
+/-! ## statements (C) -/
 
-/-- FULL STATEMENT (`roundtrip_stmt`, not proved in general):
-    `∀ s, wfS s → fmtStmtC sc s = some text ∧ lexC text = tokStmtC sc s ∧ parseStmtsTopC (lexC text) = some (eraseStmtC sc s)`
-    for every statement form (ForRange bounds/index, declarations with nested initialisers and
-    `static const`, sections with their scoping braces, comments, statement lists).
-    PROVED HERE: the two statement forms that carry the arithmetic — `Assign` and `AssignAdd` with a
-    symbol or array access on the left and ANY well-formed right-hand side — at all three levels
-    (text → tokens → statement tree).
-    MISSING: ForRange, VariableDecl, ArrayDecl, Section, StatementList, Comment. For those the same
-    three equalities are evaluated by the driver (`stmtC`) for every statement of every kernel and of
-    the synthetic statement family on every run, and cross-checked against pycparser. -/
-theorem roundtrip_stmt_partial (sc : Scalar) (l r : Expr)
-    (hlv : isLvalue l = true) (hl : wfC sc l = true) (hr : wfC sc r = true) :
-    (∃ text, fmtStmtC sc (.assign l r) = some text ∧ lexC text = tokStmtC sc (.assign l r)
-        ∧ parseStmtsTopC (lexC text) = some (eraseStmtC sc (.assign l r)))
-    ∧ (∃ text, fmtStmtC sc (.addAssign l r) = some text ∧ lexC text = tokStmtC sc (.addAssign l r)
-        ∧ parseStmtsTopC (lexC text) = some (eraseStmtC sc (.addAssign l r))) := by
-  constructor
-  · obtain ⟨h1, h2⟩ := assign_roundtrip sc .assign (Or.inl rfl) l r hlv hl hr
-    exact ⟨_, fmtStmtC_assign sc l r, by rw [h1]; simp [tokStmtC], by rw [h2]; simp [eraseStmtC]⟩
-  · obtain ⟨h1, h2⟩ := assign_roundtrip sc .plusAssign (Or.inr rfl) l r hlv hl hr
-    exact ⟨_, fmtStmtC_addAssign sc l r, by rw [h1]; simp [tokStmtC], by rw [h2]; simp [eraseStmtC]⟩
+/-- **Round trip, C, statements (full).** For every well-formed statement tree — `Assign`,
+    `AssignAdd`, `VariableDecl`, `ArrayDecl` (with dimensions, `static const`, nested initialiser
+    lists or none), `ForRange` (index, bounds, body), `Comment` (also multi-line), `StatementList`,
+    `Section` (comment header, declarations, the scoping braces around the body) — the formatter
+    does not raise, the C lexer reads the text back to exactly the intended token stream (comments
+    are not tokens), and the statement parser reads the tokens back to the erased statement tree.
+    `wfS` (decidable, FfcxModel/LNodes/ParseC.lean): left-hand sides are symbols or array accesses,
+    declared names and loop indices are identifiers, the declared type is not `DataType.NONE`, array
+    initialisers are numeric literals, Section names and input/output names contain no line break,
+    every expression is well-formed (`wfC`).
+    Text level (`stmt_lex`): the lexer is line-compositional, so `indentLines`, `indentAfterNewlines`
+    and `//` lines do not change the token stream; each line is a separated piece list.
+    Token level (`parse_tokens_stmt`): fuel-monotone statement parser, every statement form parses
+    in front of arbitrary following tokens (`stmt_prefix`), induction over the nested statement type. -/
+theorem roundtrip_stmt_C (sc : Scalar) (s : Stmt) (hwf : wfS sc s = true) :
+    ∃ text, formatStmtC sc s = some text ∧ lexC text = tokStmtC sc s
+      ∧ parseStmtsTopC (lexC text) = some (eraseStmtC sc s) := by
+  obtain ⟨text, h1, h2, _⟩ := stmt_lex sc s hwf
+  refine ⟨text, ?_, h2, by rw [h2]; exact parse_tokens_stmt sc s hwf⟩
+  simp only [formatStmtC, wfS_not_raises sc s hwf, Bool.false_eq_true, if_false, h1]
+
+/-- a Section with declarations (2-D `static const` table with negative and exponent-form
+    entries, an uninitialised array, a scalar), a multi-line comment, a loop nest with `=` and `+=`
+    on array accesses with a MultiIndex, an empty comment, an empty loop inside a StatementList -/
+def sampleStmt : Stmt :=
+  .sect "tables and loops"
+    [.adecl "FE" .real [2, 3] true (some [.litF (-1 / 2) 0 false, .litF 1 0 false, .litF (1 / 100000) 0 false,
+        .litF 0 0 false, .litF 3 0 false, .litI (-7)]),
+     .adecl "sp" .scalar [4] false none,
+     .vdecl "w0" .scalar (.bin .mul (.sym "c" .scalar) (.litF (1 / 2) 0 false))]
+    [.comment "first line\nsecond line",
+     .forRange "i" (.litI 0) (.litI 2)
+       [.forRange "j" (.litI 0) (.sym "n" .int)
+          [.assign (.idx "sp" .scalar [.sym "j" .int]) (.sym "w0" .scalar),
+           .addAssign (.idx "A" .scalar [.mi [.sym "i" .int, .sym "j" .int] [2, 3]
+               (.sum [.bin .mul (.litI 3) (.sym "i" .int), .sym "j" .int])])
+             (.bin .mul (.idx "FE" .real [.sym "i" .int, .sym "j" .int]) (.idx "sp" .scalar [.sym "j" .int]))],
+        .block [.comment "", .forRange "k" (.litI 0) (.litI 1) []]]]
+    ["c"] ["A"] []
+
+/-- the hypothesis of `roundtrip_stmt_C` is satisfiable by a statement using every form -/
+example : wfS .c64 sampleStmt = true
+    ∧ ∃ text, formatStmtC .c64 sampleStmt = some text ∧ lexC text = tokStmtC .c64 sampleStmt
+      ∧ parseStmtsTopC (lexC text) = some (eraseStmtC .c64 sampleStmt) := by
+  have h1 : wfS .c64 sampleStmt = true := by decide +kernel
+  exact ⟨h1, roundtrip_stmt_C _ _ h1⟩
+
+/-- what such a text looks like -/
+example : fmtStmtC .f64 (.forRange "i" (.litI 0) (.litI 2)
+      [.adecl "t" .real [2, 2] true (some [.litF 1 0 false, .litF (-2) 0 false, .litF 3 0 false, .litF 4 0 false]),
+       .comment "a\nb",
+       .addAssign (.idx "A" .scalar [.sym "i" .int]) (.idx "t" .real [.sym "i" .int, .litI 0])])
+    = some ("for (int i = 0; i < 2; ++i)\n{\n  static const double t[2][2] = {{1.0, -2.0},\n    {3.0, 4.0}};\n"
+        ++ "  // a\n  // b\n  A[i] += t[i][0];\n}\n").toList := by decide +kernel
+
+/-- the hypothesis is needed: a Section whose name contains a line break prints the rest of the
+    name outside the `//` comment, where it is lexed as tokens the statement does not have
+    (not reachable from ffcx: section names are fixed strings without line breaks) -/
+theorem roundtrip_stmt_C_counterexample :
+    wfS .f64 (.sect "a\nb" [] [] [] [] []) = false
+    ∧ (fmtStmtC .f64 (.sect "a\nb" [] [] [] [] [])).map lexC = some [.id "b"]
+    ∧ tokStmtC .f64 (.sect "a\nb" [] [] [] [] []) = [] := by
+  refine ⟨?_, ?_, ?_⟩ <;> decide +kernel
 
 /-- the accumulation statement of every kernel, `A[4 * i + j] += fw0 * T[i];`, is an instance -/
 example :
-    isLvalue (.idx "A" .scalar [.mi [.sym "i" .int, .sym "j" .int] [3, 4] (.sum [.bin .mul (.litI 4) (.sym "i" .int), .sym "j" .int])]) = true
-    ∧ wfC .f64 (.idx "A" .scalar [.mi [.sym "i" .int, .sym "j" .int] [3, 4] (.sum [.bin .mul (.litI 4) (.sym "i" .int), .sym "j" .int])]) = true
-    ∧ wfC .f64 (.bin .mul (.sym "fw0" .scalar) (.idx "T" .real [.sym "i" .int])) = true := by
-  refine ⟨rfl, ?_, ?_⟩ <;> decide +kernel
+    wfS .f64 (.addAssign (.idx "A" .scalar [.mi [.sym "i" .int, .sym "j" .int] [3, 4] (.sum [.bin .mul (.litI 4) (.sym "i" .int), .sym "j" .int])])
+      (.bin .mul (.sym "fw0" .scalar) (.idx "T" .real [.sym "i" .int]))) = true := by decide +kernel
 
-/-! ## numba -/
+/-! ## numba: expressions -/
 
-/-- FULL STATEMENT (`roundtrip_Py`, not proved in general; no counterexample is known any more):
-    `∀ e, wfC e → parseExprPy (lexPyExpr (fmtExprPy e)) = some (erasePy e)`.
-    PROVED HERE: the statement for EVERY well-typed tree of depth 2 — every parent class × every
-    well-typed child representative (all expression classes incl. Bessel calls and MultiIndex
-    operands; positive, negative, exponent-form, complex and integer literals) × every operand
-    position — by evaluating the numba formatter model, the Python lexer and the Python parser in
-    the kernel; see also `roundtrip_Py_comparisons`.
-    MISSING: the induction over all trees (the C proof does not transfer verbatim: `not`, chained
-    comparisons, `x if c else y`); on every run the Lean parser is executed on all generated
-    trees of depth ≤ 6 and agrees with CPython's `ast`. -/
-theorem roundtrip_Py_partial :
-    ∀ e ∈ depth2WT, WT .f64 e = true ∧ parseExprPy (lexPyExpr (fmtExprPy e)) = some (erasePy e) := by
-  intro e he
-  exact pyOK_sound (List.all_eq_true.1 depth2WT_all_ok e he)
+/-- **No token fusion, numba (full).** For every well-formed expression the Python lexer reads the
+    numba text back to exactly the tokens the formatter intends (`lex_render_py`: generic statement
+    for separated piece lists; `pySeparated_pieces`: the pieces of every well-formed tree are
+    separated — `not` and keyword operators are set off by blanks, dotted heads `np.sqrt`, a sign
+    in front of a number, the imaginary suffix `j`). -/
+theorem no_token_fusion_py (e : Expr) (hwf : wfPy e = true) : lexPyExpr (fmtExprPy e) = tokExprPy e :=
+  no_token_fusion_py_aux e hwf
 
-/-- …and for the ill-typed but constructible family that used to fail (DESIGN F16): every
-    comparison directly under every comparison, left, right and both sides. Python chains
-    `a < b == c`; the formatter now prints `(a < b) == c`. -/
+/-- **Round trip, numba, expressions (full).** For every well-formed expression tree the numba text
+    lexes and parses, under Python's expression grammar, back to the erased tree: same operator
+    nesting, operands, subscripts (`A[i, j]`, MultiIndex by its global index), call arguments,
+    callables (`np.*`, `math.erf`, `scipy.special.yn/jn`); `erasePy` left-nests n-ary Sum/Product
+    itself (`leftNestPT`), reads a negative literal as unary minus over its magnitude and a complex
+    literal `(1+2j)` as the sum Python parses.
+    `wfPy` (decidable, FfcxModel/LNodes/ParsePy.lean): identifiers are identifiers and not Python
+    keywords, n-ary nodes and subscript lists are non-empty, a non-complex literal has no imaginary
+    part, `erf` has one argument, a MultiIndex carries a Sum or integer literal. NO typing
+    hypothesis: comparison chaining (`a < b == c` is one chained comparison in Python) cannot occur
+    because the formatter parenthesises a comparison directly under a comparison; `(not (x))` and
+    `(t if c else f)` are always parenthesised; the text has no `**`.
+    Architecture as for C: pieces/separated → `lex_render_py` → fuel-monotone parser (`PyMono`) →
+    `rtp_all` by induction on the tree size with the invariant "what follows binds no tighter than
+    the level being parsed, and no comparison operator follows a comparison". -/
+theorem roundtrip_Py (e : Expr) (hwf : wfPy e = true) :
+    parseExprPy (lexPyExpr (fmtExprPy e)) = some (erasePy e) := by
+  rw [no_token_fusion_py e hwf, parse_tokens_Py e hwf]
+
+/-- …in terms of the normal form `norm` of the C round trip, for trees without complex literals
+    (`norm` writes `1 + I * 2`, Python reads `(1+2j)` as a sum with an imaginary NUMBER) -/
+theorem roundtrip_Py_norm (e : Expr) (hwf : wfPy e = true) (hnc : noComplex e = true) :
+    parseExprPy (lexPyExpr (fmtExprPy e)) = some (erasePy (norm e)) := by
+  rw [roundtrip_Py e hwf, erasePy_norm e hnc]
+
+/-- the literal-shape conjunct of `wfPy` — "the printed magnitude is one NUMBER token" — always
+    holds (`repr` of a float, the `'r'`-formatted parts of a complex with the `j` suffix, `str(int)`) -/
+theorem literal_texts_are_tokens_py (e : Expr) : pyLitShapeOK e = (match e with
+    | .litF _ im c => c || decide (im = 0)
+    | _ => true) := pyLitShapeOK_eq e
+
+/-- the hypotheses of `roundtrip_Py` are satisfiable by the tree that uses every constructor -/
+example : wfPy sampleTree = true
+    ∧ parseExprPy (lexPyExpr (fmtExprPy sampleTree)) = some (erasePy sampleTree) := by
+  have h1 : wfPy sampleTree = true := by decide +kernel
+  exact ⟨h1, roundtrip_Py _ h1⟩
+
+/-- `wfPy` is needed, (1): `math.erf(args[0])` drops further arguments; (2): a symbol named like a
+    Python keyword is not an expression. Neither is reachable from UFL (`erf` has one operand,
+    names are generated). -/
+theorem roundtrip_Py_counterexample :
+    (wfPy (.call "erf" .real [.sym "x" .real, .sym "y" .real]) = false
+      ∧ parseExprPy (lexPyExpr (fmtExprPy (.call "erf" .real [.sym "x" .real, .sym "y" .real])))
+          = some (.call "math.erf" [.id "x"])
+      ∧ erasePy (.call "erf" .real [.sym "x" .real, .sym "y" .real]) = .call "math.erf" [.id "x", .id "y"])
+    ∧ (wfPy (.sym "lambda" .real) = false
+      ∧ (parseExprPy (lexPyExpr (fmtExprPy (.sym "lambda" .real)))).isNone = true) := by
+  refine ⟨⟨by decide +kernel, pyParsesTo_sound (by decide +kernel), PT.eqb_sound _ _ (by decide +kernel)⟩,
+    by decide +kernel, by decide +kernel⟩
+
+/-- the ill-typed but constructible family that used to fail (DESIGN F16) — every comparison
+    directly under every comparison, left, right and both sides — is covered by `roundtrip_Py`:
+    Python chains `a < b == c`; the formatter prints `(a < b) == c`. -/
 theorem roundtrip_Py_comparisons :
     ∀ e ∈ cmpNested, parseExprPy (lexPyExpr (fmtExprPy e)) = some (erasePy e) := by
   intro e he
-  exact pyOKraw_sound (List.all_eq_true.1 cmpNested_all_ok e he)
+  have : cmpNested.all wfPy = true := by decide +kernel
+  exact roundtrip_Py e (List.all_eq_true.1 this e he)
 
 /-- `EQ(LT(a,b), LT(c,d))` -/
 def chainTree : Expr :=
@@ -236,13 +354,71 @@ def chainTree : Expr :=
 /-- `bessel_y(1, x)` -/
 def besselTree : Expr := .call "bessel_y" .real [.litI 1, .sym "x" .real]
 
-/-- regression: the two former counterexamples of the numba round trip now parse back -/
+/-- regression: the texts of the two former counterexamples of the numba round trip -/
 example :
-    fmtExprPy chainTree = "(a < b) == (c < d)".toList
-    ∧ pyOKraw chainTree = true
-    ∧ fmtExprPy besselTree = "scipy.special.yn(1, x)".toList
-    ∧ pyOKraw besselTree = true := by
+    fmtExprPy chainTree = "(a < b) == (c < d)".toList ∧ wfPy chainTree = true
+    ∧ fmtExprPy besselTree = "scipy.special.yn(1, x)".toList ∧ wfPy besselTree = true := by
   refine ⟨?_, ?_, ?_, ?_⟩ <;> decide +kernel
+
+/-! ## numba: statements -/
+
+/-- **Round trip, numba, statements (full).** For every well-formed statement tree — `Assign`,
+    `AssignAdd`, `VariableDecl`, `ArrayDecl` (`np.empty`, `np.full`, `np.array` with nested list
+    displays that continue over several physical lines), `ForRange`, `Comment`, `StatementList`,
+    `Section` — the numba formatter does not raise, the Python lexer (physical lines, indentation
+    stack, implicit line joining inside brackets, blank and comment lines) reads the text back to
+    exactly the intended token stream with NEWLINE / INDENT / DEDENT, and the statement parser reads
+    the tokens back to the erased statement tree; a loop body without any real line gets `pass`,
+    which is no statement.
+    `wfSPy` (decidable, FfcxModel/LNodes/ParsePy.lean): as `wfS`, with Python keywords excluded as
+    names; comment texts and Section names are arbitrary (every line of them gets its own `#`).
+    Text level (`stmt_lex_py`): every statement is a list of physical lines; `Lx` states what
+    `pyLines` makes of them at every indentation and on every indentation stack; INDENT is produced
+    by the first real line of a body (`pyLines_enter`), DEDENT by the next real line at or below the
+    enclosing level or by the end of the text (`pyLines_leave`); a logical line is a piece list with
+    all line breaks inside brackets (`lex_render_nl`, `walk`, bracket balance `balT_expr`).
+    Token level (`parse_tokens_stmt_py`): fuel-monotone statement parser, tuples / list displays /
+    keyword arguments / `np.*(…)` calls as operands (`op_tuple`, `op_list`, `step_kw`, `op_npcall`),
+    every statement form in front of arbitrary following tokens (`stmtpy_prefix`). -/
+theorem roundtrip_stmt_Py (sc : Scalar) (s : Stmt) (hwf : wfSPy sc s = true) :
+    ∃ text, fmtStmtPy sc s = some text ∧ lexPy text = some (tokStmtPy sc s)
+      ∧ (lexPy text).bind parseStmtsTopPy = some (eraseStmtPy sc s) := by
+  obtain ⟨text, h1, h2⟩ := stmt_lex_py sc s hwf
+  exact ⟨text, h1, h2, by rw [h2]; exact parse_tokens_stmt_py sc s hwf⟩
+
+/-- **Round trip, statements (full), both back ends.** -/
+theorem roundtrip_stmt (sc : Scalar) (s : Stmt) (hC : wfS sc s = true) (hPy : wfSPy sc s = true) :
+    (∃ text, formatStmtC sc s = some text ∧ lexC text = tokStmtC sc s
+      ∧ parseStmtsTopC (lexC text) = some (eraseStmtC sc s))
+    ∧ (∃ text, fmtStmtPy sc s = some text ∧ lexPy text = some (tokStmtPy sc s)
+      ∧ (lexPy text).bind parseStmtsTopPy = some (eraseStmtPy sc s)) :=
+  ⟨roundtrip_stmt_C sc s hC, roundtrip_stmt_Py sc s hPy⟩
+
+/-- the hypotheses are satisfiable by the statement that uses every form -/
+example : wfS .f64 sampleStmt = true ∧ wfSPy .f64 sampleStmt = true
+    ∧ ∃ text, fmtStmtPy .f64 sampleStmt = some text ∧ lexPy text = some (tokStmtPy .f64 sampleStmt)
+      ∧ (lexPy text).bind parseStmtsTopPy = some (eraseStmtPy .f64 sampleStmt) := by
+  have h1 : wfS .f64 sampleStmt = true := by decide +kernel
+  have h2 : wfSPy .f64 sampleStmt = true := by decide +kernel
+  exact ⟨h1, h2, roundtrip_stmt_Py _ _ h2⟩
+
+/-- what such a text looks like: a continued list display inside a loop, a comment-only inner
+    body that gets `pass` -/
+example : fmtStmtPy .f64 (.forRange "i" (.litI 0) (.litI 2)
+      [.adecl "t" .real [2, 2] true (some [.litF 1 0 false, .litF (-2) 0 false, .litF 3 0 false, .litF 4 0 false]),
+       .forRange "j" (.litI 0) (.litI 1) [.comment "nothing"],
+       .addAssign (.idx "A" .scalar [.sym "i" .int]) (.idx "t" .real [.sym "i" .int, .litI 0])])
+    = some ("for i in range(0, 2):\n    t = np.array([[1.0, -2.0],\n    [3.0, 4.0]], dtype=np.float64)\n"
+        ++ "    for j in range(0, 1):\n        # nothing \n        \n        pass\n    A[i] += t[i, 0]\n    \n").toList := by
+  decide +kernel
+
+/-- `wfSPy` is needed: a declared name that is a Python keyword gives a line Python cannot parse
+    (names are generated by ffcx, none is a keyword) -/
+theorem roundtrip_stmt_Py_counterexample :
+    wfSPy .f64 (.vdecl "in" .real (.litI 1)) = false
+    ∧ fmtStmtPy .f64 (.vdecl "in" .real (.litI 1)) = some "in = 1\n".toList
+    ∧ ((lexPy "in = 1\n".toList).bind parseStmtsTopPy).isNone = true := by
+  refine ⟨?_, ?_, ?_⟩ <;> decide +kernel
 
 /-! ## literals -/
 
